@@ -9,6 +9,12 @@
 #  cfg    every expression up to the depth bound over atoms {a, b, a="x", b=""} x all 16 configurations against a
 #         structural evaluator; every single-token deletion / duplication / insertion / replacement of the
 #         well-formed ones and every token string up to a length bound: must raise MesonException when malformed.
+#         Character level (the structure of an expression does not depend on the white space between its tokens, and a
+#         string literal is one token whatever it contains): token gaps - every expression up to the depth bound with
+#         every gap filled from {nothing, space, two spaces, tab, newline, CR LF, mixed} under a deviation bound, plus
+#         all gaps the same, against the same structural evaluator; piece strings - every concatenation of pieces
+#         (names, keywords, punctuation, a lone quote, blank, tab, newline) up to a length bound, read by a reference
+#         lexer; literal values - name = "value" for every value over a small character set with separators.
 import ast, itertools, json, operator, os, sys, time
 from verif.core import Check, pmap, run_main, REPO
 
@@ -1552,8 +1558,16 @@ def main():
     ck.assume('unspecified, skipped and counted: a pre-release version inside the bounds of a requirement that names a pre-release of a '
               '*different* major.minor.patch (Cargo rejects, meson documents "any pre-release comparator enables pre-releases"); '
               'cfg trailing commas "all(a,)" / "not(a,)"; a bare all/any/not where an option name may stand (Cargo: error, rustc: option '
-              'name - either MesonException or the rustc value is accepted, e.g. cfg(all) -> False); not enumerated: "!=", "*" inside a comma list, quoted cfg values containing '
-              'separators, identifiers with "." or "r#", the cfg literals true/false')
+              'name - either MesonException or the rustc value is accepted, e.g. cfg(all) -> False); white space other than U+0020 between '
+              'cfg tokens (rustc skips every Pattern_White_Space character, Cargo\'s tokenizer skips U+0020 only and reports a tab or a '
+              'newline as an unexpected character): for an expression that is well-formed apart from such white space either the '
+              'structural value or MesonException is accepted, never another value, and one kind of white space must get the same '
+              'treatment in every expression; not enumerated: "!=", "*" inside a comma list, identifiers with "." or "r#", the cfg literals '
+              'true/false, backslash escapes in cfg string literals, characters that Python\'s str.isspace() accepts but neither grammar '
+              'does (U+00A0, U+001C..U+001F, U+3000: the real lexer skips them, both grammars reject them)')
+    ck.assume('cfg tokens (reference lexer, from the cargo-platform tokenizer and the Rust reference): ( ) , = ; IDENTIFIER '
+              '[A-Za-z_][A-Za-z0-9_]*; a string literal extends from a quote to the next quote whatever is in between, a literal that is '
+              'never closed makes the expression malformed')
     ck.assume('cfg configuration is the Dict[str,str] the interpreter builds (name-only options map to ""); name="v" holds iff the name is '
               'present with exactly that value')
     ck.finish(evaluations=total, distinct_nontrivial=len(classes), skipped_unspecified=skipped,
@@ -1564,7 +1578,12 @@ def main():
                    'matcher; a supplementary multi-digit grid ({2,10} vs {1,2,3,9,10,11}^3). order: all six operators on every pair of the '
                    'version set, axioms over all triples on the recorded matrix, section-11 reference sign on every pair. cfg: every '
                    'expression of depth<=2 (all/any arity 0-2, not, atoms a, b, a="x", b="") in 3 spellings, a depth-3 layer, all '
-                   'single-token deletions/duplications/replacements/insertions, all token strings up to the bound, each x configurations. '
+                   'single-token deletions/duplications/replacements/insertions, all token strings up to the bound, each x configurations; '
+                   'token gaps: every expression of depth<=1 with <=2 gaps (of the compact spelling; <=1 of the manifest spelling) and every '
+                   'expression of depth 2 (quick: the first 1200) with <=1 gap filled with every other filler of {nothing, space, two '
+                   'spaces, tab, newline, CR LF, mixed}, plus every filler in all gaps; every concatenation of <=5 (thorough 6) pieces over '
+                   '{a, x, all, any, not, ( ) , = ", blank, tab, newline} read by the reference lexer; a = "value" for every value of <=3 '
+                   '(thorough 4) characters over {x, blank, tab, comma, ( ) =} alone and inside not/all/any. '
                    'distinct_nontrivial = distinct (part, comparator class | order sign x pre-release-ness | cfg node, outcome) classes '
                    'observed in the reference',
               exhaustive=True)
